@@ -118,6 +118,84 @@ theorem unjsonI_jsonI (z : Int) : unjsonI (jsonI z) = some z := by
   rw [jsonUnquote_jsonQuote _ (textI_plain _)]
   simp [parseI, parseDefault_textI]
 
+-- ---------------------------------------------------------------- rational text round trip
+
+theorem splitAt1_none (c : Nat) (a : Bytes) (h : c ∉ a) : splitAt1 c a = none := by
+  induction a with
+  | nil => rfl
+  | cons x xs ih =>
+    have hx : x ≠ c := fun e => h (by simp [e])
+    have hxs : c ∉ xs := fun e => h (by simp [e])
+    simp [splitAt1, hx, ih hxs]
+
+theorem splitAt1_append (c : Nat) (a b : Bytes) (h : c ∉ a) : splitAt1 c (a ++ c :: b) = some (a, b) := by
+  induction a with
+  | nil => simp [splitAt1]
+  | cons x xs ih =>
+    have hx : x ≠ c := fun e => h (by simp [e])
+    have hxs : c ∉ xs := fun e => h (by simp [e])
+    simp [splitAt1, hx, ih hxs]
+
+theorem textI_no_slash (z : Int) : 47 ∉ textI z := by
+  intro hc
+  unfold textI printSpecInt at hc
+  rcases List.mem_append.mp hc with h | h
+  · split at h
+    · simp at h
+    · cases h
+  · have := printSpec_dec _ 47 h
+    omega
+
+theorem parseQRaw_textQ (q : QVal) (hd : q.den ≠ 0) : parseQRaw (textQ q) = some (q.num, q.den) := by
+  unfold textQ
+  by_cases h1 : q.den = 1
+  · simp only [h1, if_true]
+    unfold parseQRaw
+    rw [splitAt1_none 47 _ (textI_no_slash q.num)]
+    simp [parseDefault_textI]
+  · simp only [h1, if_false]
+    unfold parseQRaw
+    rw [List.append_assoc, List.singleton_append, splitAt1_append 47 _ _ (textI_no_slash q.num)]
+    simp only [parseDefault_textI]
+    have hneg : ¬ ((q.den : Int) < 0) := by omega
+    simp [hneg]
+
+/-- RBig: `Display` → JSON string → `Repr::from_str_with_radix_prefix` + `reduce` is the identity on
+    reduced fractions -/
+theorem unjsonQ_jsonQ (q : QVal) (hq : QReduced q) : unjsonQ (jsonQ q) = some q := by
+  unfold unjsonQ jsonQ
+  have hplain : ∀ c ∈ textQ q, plainChar c := by
+    intro c hc
+    unfold textQ at hc
+    split at hc
+    · exact textI_plain _ c hc
+    · rcases List.mem_append.mp hc with h | h
+      · rcases List.mem_append.mp h with h | h
+        · exact textI_plain _ c h
+        · have : c = 47 := by simpa using h
+          subst this; unfold plainChar; omega
+      · exact textI_plain _ c h
+  rw [jsonUnquote_jsonQuote _ hplain]
+  have hd : q.den ≠ 0 := by have := hq.1; omega
+  simp [parseQ, parseQRaw_textQ q hd, hd, qreduce_of_reduced q hq]
+
+theorem unjsonX_jsonQ (q : QVal) (hq : QRelaxed q) : unjsonX (jsonQ q) = some q := by
+  unfold unjsonX jsonQ
+  have hplain : ∀ c ∈ textQ q, plainChar c := by
+    intro c hc
+    unfold textQ at hc
+    split at hc
+    · exact textI_plain _ c hc
+    · rcases List.mem_append.mp hc with h | h
+      · rcases List.mem_append.mp h with h | h
+        · exact textI_plain _ c h
+        · have : c = 47 := by simpa using h
+          subst this; unfold plainChar; omega
+      · exact textI_plain _ c h
+  rw [jsonUnquote_jsonQuote _ hplain]
+  have hd : q.den ≠ 0 := by have := hq.1; omega
+  simp [parseX, parseQRaw_textQ q hd, hd, qreduce2_of_relaxed q hq]
+
 -- ---------------------------------------------------------------- canonicity of the text decoders
 
 theorem parseQ_canonical (s : Bytes) (q : QVal) (h : parseQ s = some q) : QReduced q := by
